@@ -525,6 +525,8 @@ func c10Run(c *Case) (out string, fails []Fail) {
 		return c10RunDecoder(c)
 	case 2:
 		return c10RunUnescape(c)
+	case 3:
+		return c10RunRewriterMem(c)
 	}
 	cc, err := c10Parse(c)
 	if err != nil || cc.M < 1 || cc.nrec < len(cc.schema) || cc.nout < 1 {
